@@ -307,6 +307,8 @@ SortedFinish(m, fr) ==
          IF fr.src.t = "dict"
          THEN (LET al == Alloc(m.heap, NewDict([j \in 1..n |-> <<out[j].items[1].s, out[j].items[2]>>])) IN
                [m EXCEPT !.heap = al.h, !.k = Pop(@), !.ctl = [t |-> "ret", v |-> DictRef(al.a)]])
+         ELSE IF Dev("MutSortedInPlace") /\ fr.src.t = "list"      \* specification mutant (non-vacuity of C13)
+         THEN FinishList([m EXCEPT !.heap[fr.src.addr].items = out], out)
          ELSE FinishList(m, out)
 
 \* decide what the HO frame on top does next (called when it is created and after each callback)
@@ -321,7 +323,8 @@ HoNext(m) ==
                  IF fr.i > Len(its) THEN FinishList(m, fr.acc) ELSE CallF(m, fr.fv, <<its[fr.i]>>)
       [] fr.fn = "filter" ->
             LET its == LiveItems(m, fr.src) IN
-            IF fr.i > Len(its) THEN FinishList(m, fr.acc)
+            IF fr.fv.t = "none" THEN FinishList(m, SelectSeq(its, LAMBDA x : Truthy(m.heap, x)))      \* filter(None, xs): truthy elements
+            ELSE IF fr.i > Len(its) THEN FinishList(m, fr.acc)
             ELSE CallF(SetTop(m, [fr EXCEPT !.cur = its[fr.i]]), fr.fv, <<its[fr.i]>>)
       [] fr.fn = "reduce" ->
             \* functools.reduce: acc holds <<accumulator>> once the first element is taken
@@ -375,7 +378,6 @@ StartHo(m, name, args) ==
                             ELSE IterItems(m.heap, a1)
                      keyOk == a2.t \in {"none", "lambda", "builtin", "hostfn"} IN
                  IF ~Iterable(a1) THEN Raise(m, TypeErr)
-                 ELSE IF a3.t \notin {"bool", "int"} THEN Raise(m, TypeErr)
                  ELSE IF ~keyOk THEN LeftDomain(m, "sorted with a non-callable key")
                  ELSE HoNext([m EXCEPT !.k = Push(@, [HoFrame("sorted", a1, a2) EXCEPT !.items = its, !.rev = Truthy(m.heap, a3)])])
 
@@ -416,12 +418,12 @@ Materialize(h, iv) ==
 IsSubstr(s, p) == Len(p) = 0 \/ FindFrom(s, p, 1) # 0
 IntegerValued(v) == (v.t = "int") \/ (v.t = "bool") \/ (v.t = "dec" /\ DecCmp(DRep(v), IntToDec(DecToIntegral(DRep(v), "trunc"))) = 0)
 \* bag equality of two value sequences (identity for references)
-RECURSIVE RemoveOne(_, _, _)
-RemoveOne(xs, x, i) == IF i > Len(xs) THEN "none" ELSE IF xs[i] = x THEN SeqRemoveAt(xs, i) ELSE RemoveOne(xs, x, i + 1)
+RECURSIVE IndexOfVal(_, _, _)
+IndexOfVal(xs, x, i) == IF i > Len(xs) THEN 0 ELSE IF xs[i] = x THEN i ELSE IndexOfVal(xs, x, i + 1)
 RECURSIVE IsPerm(_, _)
 IsPerm(xs, ys) == IF Len(xs) # Len(ys) THEN FALSE
                   ELSE IF Len(xs) = 0 THEN TRUE
-                  ELSE LET r == RemoveOne(ys, xs[1], 1) IN IF r = "none" THEN FALSE ELSE IsPerm(Tail(xs), r)
+                  ELSE LET i == IndexOfVal(ys, xs[1], 1) IN IF i = 0 THEN FALSE ELSE IsPerm(Tail(xs), SeqRemoveAt(ys, i))
 
 RegexItemOk(s, it) == \/ it.t = "none"
                       \/ (it.t = "str" /\ IsSubstr(s, it.s))
@@ -494,13 +496,14 @@ ApplyHost(m, host, name, args) ==
                 ELSE [m1 EXCEPT !.k = Push(@, [f |-> "host", name |-> name, mode |-> hb.mode]),
                                 !.ctl = [t |-> "call", f |-> args[1], args |-> Tail(args)]]
 
-\* does the next step need an oracle value?
+\* Does the next step consume an observed result?  The tracer records one for EVERY invocation of a
+\* relational builtin (rand shuffle match match_groups match_all float) and for every ** whose operands
+\* were both evaluated; the specification uses it only where it has no constructive definition.
+OracleBuiltins == Relational \cup {"float"}
 NeedsOracle(m) ==
-    \/ /\ m.ctl.t = "call" /\ m.ctl.f.t = "builtin"
-       /\ \/ m.ctl.f.name \in Relational /\ ~(m.ctl.f.name = "rand" /\ (Len(m.ctl.args) > 2 \/ (Len(m.ctl.args) = 1 /\ m.ctl.args[1].t # "list")))
-          \/ m.ctl.f.name = "float" /\ Len(m.ctl.args) = 1 /\ "oracle" \in DOMAIN BI_float(m.ctl.args[1])
+    \/ m.ctl.t = "call" /\ m.ctl.f.t = "builtin" /\ m.ctl.f.name \in OracleBuiltins
     \/ /\ m.ctl.t = "ret" /\ Len(m.k) > 0 /\ Top(m.k).f = "node" /\ Top(m.k).node.k = "bin" /\ Top(m.k).node.op = "**"
-       /\ Top(m.k).pc = 2 /\ IsNum(Top(m.k).acc[1]) /\ IsNum(m.ctl.v) /\ PowExactOrNone(Top(m.k).acc[1], m.ctl.v) = NoPow
+       /\ Top(m.k).pc = 2
 
 ApplyCall(m, host, orc) ==
     LET f == m.ctl.f  args == m.ctl.args  m0 == [m EXCEPT !.ev = <<>>] IN
